@@ -952,6 +952,12 @@ func (f *Frame) runLoop(L *LoopInfo) {
 			}
 			continue
 		}
+		if bound := f.loopBound(L); bound >= 0 && it <= bound+1 {
+			// the trip count has a syntactic upper bound: unroll up to it without asking (surplus iterations run under
+			// an unsatisfiable guard and are harmless); the loop condition folds to false at the bound
+			e.FeasStats["loop:bounded-skip"]++
+			continue
+		}
 		if !e.feasibleW(bg, "loop") {
 			if e.trace {
 				e.logf("LOOPQ unsat %s it=%d", e.pos(L.header.Instrs[0].Pos()), it)
@@ -1134,4 +1140,46 @@ func (e *Engine) concretize(t *Term, g *Term) (*Term, bool) {
 		return v, true
 	}
 	return nil, false
+}
+
+// loopBound returns a syntactic upper bound on the trip count of L (-1 if none): the header ends in `if i < n`
+// with n of bounded value, or in the ok-flag of a map range (bounded by the snapshot size).
+func (f *Frame) loopBound(L *LoopInfo) int {
+	h := L.header
+	if len(h.Instrs) == 0 {
+		return -1
+	}
+	ifi, ok := h.Instrs[len(h.Instrs)-1].(*ssa.If)
+	if !ok {
+		return -1
+	}
+	switch c := ifi.Cond.(type) {
+	case *ssa.BinOp:
+		switch c.Op {
+		case token.LSS, token.LEQ, token.GTR, token.GEQ, token.NEQ:
+		default:
+			return -1
+		}
+		best := -1
+		for _, side := range []ssa.Value{c.X, c.Y} {
+			if _, isPhi := side.(*ssa.Phi); isPhi {
+				continue
+			}
+			if t, ok := f.get(side).(*Term); ok && t.W > 0 {
+				if ub := upperBound(t); ub >= 0 && ub <= 2 {
+					if int(ub) > best {
+						best = int(ub)
+					}
+				}
+			}
+		}
+		return best
+	case *ssa.Extract:
+		if nx, ok := c.Tuple.(*ssa.Next); ok && c.Index == 0 {
+			if it, ok := f.get(nx.Iter).(*IterV); ok && !it.isStr && it.n <= 2 {
+				return it.n
+			}
+		}
+	}
+	return -1
 }
